@@ -1,11 +1,13 @@
-"""C20 - unsigned byte fields and the integer/octet helpers (engine V, small engine-H part
-for the value setter).  DESIGN.md section 4, C20."""
+"""C20 - unsigned byte fields and the integer/octet helpers (engine V; engine H for the value
+setter: depth-2 histories of the setter alone, observer-interleaved histories from every entry
+point, and the independence histories build / re-assign / build again).  DESIGN.md section 4, C20."""
 
 from __future__ import annotations
 
 import itertools
 
 from mc import domains as D
+from mc.alias import Keeper
 from mc.rec import Rec, unhex
 
 PROPERTY = "C20"
@@ -14,18 +16,30 @@ EXHAUSTIVE = True
 RULE = (
     "a case is one of: a (width, value) field [construct, octet/int/len/hex views, rebuilt through every constructor and "
     "from-octets entry point with and without trailing octets, ==/hash against the original]; a refused (constructor, width, "
-    "value) / unsupported width / too-short octet string; a setter history of depth 2 from a start value; an ordered pair of "
+    "value) / unsupported width / too-short octet string; a setter history of depth 2 from a start value; an observer-interleaved "
+    "history (width, entry point that built the start field, start value, event sequence of depth D over the menu {read every view, "
+    "read one view, value=int, value=bytes, value=bytearray (the caller's buffer is overwritten afterwards), value=octets+trailing, "
+    "refused assignments}): every sequence of the menu is executed on a fresh field, each read event and the end of each history "
+    "compare hash/==/int/len/as_bytes/hex_str with a fresh field of the model's current value; an independence history (width, "
+    "value X, entry point e, assignment kind): build X through e, assign the complement to the result, build X again through "
+    "every entry point - each must read X, the re-assigned field must keep its value; every field handed out is held (mc.alias."
+    "Keeper) and re-observed after the following cases; an ordered pair of "
     "fields for ==/hash; a (helper, width, value) conversion. Values: widths 0,1,2 every value; width 4 each 16-bit half "
     "full in K backgrounds + walk(32); width 8 each octet full in K backgrounds + each 16-bit half full in 2 (thorough: K) "
     "backgrounds + walk(64). A field case is counted distinct non-trivial when no earlier sweep (halves in order, then "
     "octets, then walk) contains the same (width, value); the other kinds are disjoint by construction."
 )
-BOUNDS = {"quick": "K=4, N=4096 out-of-range values per side and width", "thorough": "K=8, N=65536"}
+BOUNDS = {"quick": "K=4, N=4096 out-of-range values per side and width; observer histories depth 3, menu of 15 events, 3 start values x 11 entry "
+                   "points x widths 1,2,4,8 (+ the empty field); independence histories: width 1 every value, wider widths 0..255 + walk + edge",
+          "thorough": "K=8, N=65536; observer histories depth 4 over the 15-event menu and depth 3 over the wide menu (every single view as its own "
+                      "read event, 8 values per assignment kind) from 8 start values; independence histories: widths >= 2 values 0..4095 + walk + edge"}
 ASSUMPTIONS = [
     "the oracle is Python's int.to_bytes(width, 'big', signed=...) / int.from_bytes: big-endian two's complement by definition",
     "the empty field: octets b'', value 0, length 0, ==/hash on (0,0), refuses non-zero values; rebuilding it from zero octets may succeed or raise ValueError; its hex view is not judged",
     "hash: equal (value,width) must hash equal; dependence on width and on value is demanded in the weakest form (not every same-value/different-width pair of the edge product may collide)",
     "helpers: every in-range value must be converted exactly (the most negative signed value may be refused with ValueError, as the library's accepted range is symmetric); which exception an out-of-range value raises is not judged, returning octets for it is",
+    "observer histories: after a refused assignment the field is only required to be coherent (all views of one in-range value), not unchanged; str()/repr() are called by the read-all event but not judged",
+    "independence: fields are mutable through the value setter (the property's own clause), so a field handed out must not change when the library builds or re-assigns another one, and building from octets X reads X whatever happened to earlier results; a bytearray passed in belongs to the caller and may be overwritten after the call",
     "width 4/8: two arbitrary non-background values in two different half-words at once are only covered by walk and the backgrounds",
 ]
 
@@ -46,6 +60,16 @@ def _u():
     import spacepackets.util as u
 
     return u
+
+
+def _fresh_library():
+    """Worker processes are reused for several shards: re-execute spacepackets/util.py at the start of every shard
+    (and of every single-case replay) so that module- and class-level state a changed library may keep (caches,
+    shared templates) never travels from one shard to the next - a shard stays a deterministic, self-contained
+    execution sequence whatever the hand-out order (VERIF_SEED) was.  On a tree without such state this is a no-op."""
+    import importlib
+
+    importlib.reload(_u())
 
 
 def concrete(u, w):
@@ -72,6 +96,20 @@ def shards(tier):
     items.append({"kind": "refuse_misc", "tier": tier})
     for w in (0,) + WIDTHS:
         items.append({"kind": "history", "w": w})
+    thorough = tier != "quick"
+    for w in (0,) + WIDTHS:
+        for e in entries(w):
+            if not thorough or w == 0:
+                items.append({"kind": "ohist", "w": w, "entry": e, "starts": [str(v) for v in obs_starts(w, False)], "depth": 3, "wide": 0})
+                continue
+            for v in obs_starts(w, False):
+                items.append({"kind": "ohist", "w": w, "entry": e, "starts": [str(v)], "depth": 4, "wide": 0})
+            for part in D.chunks(obs_starts(w, True), 2):
+                items.append({"kind": "ohist", "w": w, "entry": e, "starts": [str(v) for v in part], "depth": 3, "wide": 1})
+    for w in (0,) + WIDTHS:
+        parts = 1 if not thorough or w < 2 else 8
+        for part in range(parts):
+            items.append({"kind": "alias", "w": w, "tier": tier, "part": part, "parts": parts})
     items.append({"kind": "eqhash"})
     for signed in (0, 1):
         items.append({"kind": "helper_full", "signed": signed})
@@ -308,6 +346,298 @@ def check_history(rec: Rec, w: int, v0: int, ops):
     rec.traces += 1
 
 
+# ------------------------------------------------- entry points, views, independence
+ENTRIES0 = ["UnsignedByteField", "ByteFieldEmpty"]
+ENTRIES = [
+    "UnsignedByteField", "concrete-class", "ByteFieldGenerator.from_int",
+    "UnsignedByteField.from_bytes", "ByteFieldGenerator.from_bytes", "ByteFieldGenerator.from_bytes+suffix",
+    "concrete-class.from_bytes", "concrete-class.from_bytes+suffix",
+    "UnsignedByteField.from_bytes(bytearray)", "ByteFieldGenerator.from_bytes(bytearray)+suffix", "concrete-class.from_bytes(bytearray)",
+]
+
+
+def entries(w):
+    return ENTRIES if w else ENTRIES0
+
+
+def build(u, entry, w, v):
+    """-> (field, scratch): the field for (w, v) through the named public entry point; scratch is the
+    bytearray that was handed to the library (it belongs to the caller, who may overwrite it), else None"""
+    if entry == "UnsignedByteField":
+        return u.UnsignedByteField(v, w), None
+    if entry == "ByteFieldEmpty":
+        return u.ByteFieldEmpty(), None
+    cls, from_name = concrete(u, w)
+    exp = v.to_bytes(w, "big")
+    if entry == "concrete-class":
+        return cls(v), None
+    if entry == "ByteFieldGenerator.from_int":
+        return u.ByteFieldGenerator.from_int(w, v), None
+    if entry == "UnsignedByteField.from_bytes":
+        return u.UnsignedByteField.from_bytes(exp), None
+    if entry == "ByteFieldGenerator.from_bytes":
+        return u.ByteFieldGenerator.from_bytes(w, exp), None
+    if entry == "ByteFieldGenerator.from_bytes+suffix":
+        return u.ByteFieldGenerator.from_bytes(w, exp + SUFFIX), None
+    if entry == "concrete-class.from_bytes":
+        return getattr(cls, from_name)(exp), None
+    if entry == "concrete-class.from_bytes+suffix":
+        return getattr(cls, from_name)(exp + SUFFIX), None
+    if entry == "UnsignedByteField.from_bytes(bytearray)":
+        buf = bytearray(exp)
+        return u.UnsignedByteField.from_bytes(buf), buf
+    if entry == "ByteFieldGenerator.from_bytes(bytearray)+suffix":
+        buf = bytearray(exp + SUFFIX)
+        return u.ByteFieldGenerator.from_bytes(w, buf), buf
+    if entry == "concrete-class.from_bytes(bytearray)":
+        buf = bytearray(exp)
+        return getattr(cls, from_name)(buf), buf
+    raise KeyError(entry)
+
+
+def scribble(buf):
+    if buf is not None:
+        for i in range(len(buf)):
+            buf[i] ^= 0xFF
+
+
+def snapshot(f):
+    """copying observation of every view (for the Keeper)"""
+    return (bytes(f.as_bytes), int(f), f.value, len(f), f.byte_len, f.hex_str if len(f) else None, hash(f))
+
+
+VIEWS = ["hash", "eq", "int", "len", "as_bytes", "hex_str"]  # hash first: no other read precedes it in a read-all
+
+
+def wrong_views(u, f, w, cur, views=VIEWS):
+    """-> list of (view, observed, expected) for the views of f that do not show (cur, w); the expectation of
+    ==/hash is a fresh field built through the plain constructor"""
+    out = []
+    exp = cur.to_bytes(w, "big")
+    fresh = None
+    if "hash" in views or "eq" in views:
+        try:
+            fresh = u.UnsignedByteField(cur, w)
+        except Exception:
+            fresh = None  # reported by the field cases (construct/...)
+    for view in views:
+        try:
+            if view == "hash":
+                if fresh is not None and hash(f) != hash(fresh):
+                    out.append((view, hash(f), hash(fresh)))
+            elif view == "eq":
+                if fresh is not None:
+                    got = [f == fresh, fresh == f]
+                    want = [True, True]
+                    if w:
+                        other = u.UnsignedByteField(cur ^ 1, w)
+                        got += [f == other, other == f]
+                        want += [False, False]
+                    if got != want:
+                        out.append((view, got, want))
+            elif view == "int":
+                if int(f) != cur or f.value != cur:
+                    out.append((view, (int(f), f.value), cur))
+            elif view == "len":
+                if len(f) != w or f.byte_len != w:
+                    out.append((view, (len(f), f.byte_len), w))
+            elif view == "as_bytes":
+                if bytes(f.as_bytes) != exp:
+                    out.append((view, bytes(f.as_bytes), exp))
+            elif view == "hex_str":
+                if w and f.hex_str != "0x" + exp.hex():
+                    out.append((view, f.hex_str, "0x" + exp.hex()))
+        except Exception as e:
+            out.append((view, "exception " + repr(e), "the view of value %d" % cur))
+    return out
+
+
+# ------------------------------------------------ observer-interleaved setter histories
+def obs_values(w, wide):
+    if w == 0:
+        return [0]
+    m = (1 << (8 * w)) - 1
+    return D.edge(8 * w) if wide else [0, 1, m, D.alt(8 * w, False)]
+
+
+def obs_starts(w, wide):
+    if w == 0:
+        return [0]
+    m = (1 << (8 * w)) - 1
+    return D.edge(8 * w) if wide else [0, m, D.alt(8 * w, True)]
+
+
+def obs_menu(w, wide):
+    """event menu: ['R'] read every view / ['V', view] read one view / ['int', str] / ['bytes', octets] /
+    ['bytearray', octets] (overwritten by the caller after the assignment)"""
+    if w == 0:
+        return [["R"], ["V", "hash"], ["int", "0"], ["bytes", b""], ["bytearray", b""], ["bytes", b"\x01"], ["int", "1"], ["int", "-1"]]
+    m = (1 << (8 * w)) - 1
+    vals = obs_values(w, wide)
+    menu = [["R"]] + ([["V", v] for v in VIEWS] if wide else [["V", "hash"]])
+    menu += [["int", str(v)] for v in vals]
+    menu += [["bytes", v.to_bytes(w, "big")] for v in vals]
+    menu += [["bytearray", D.alt(8 * w, True).to_bytes(w, "big")], ["bytes", (1 << (8 * w - 1)).to_bytes(w, "big") + SUFFIX]]
+    if wide:
+        menu += [["bytearray", (m - 1).to_bytes(w, "big") + SUFFIX], ["bytes", bytes(w) + SUFFIX]]
+    menu += [["int", "-1"], ["int", str(m + 1)], ["bytes", b"\xff" * (w - 1)]]
+    return menu
+
+
+def check_obs_history(rec: Rec, w: int, entry: str, v0: int, events, keeper=None):
+    u = _u()
+    case = {"kind": "ohist", "w": w, "entry": entry, "v0": str(v0), "events": events}
+    rec.case(True, ops=4 * len(events) + 12)
+    m = (1 << (8 * w)) - 1
+    try:
+        f, scratch = build(u, entry, w, v0)
+    except Exception as e:
+        rec.violation(f"C20.history/start/{entry}/exception/{type(e).__name__}", case, repr(e), (w, v0))
+        return
+    scribble(scratch)
+    cur = v0
+    last = "none"
+
+    def judge(step, views=VIEWS):
+        bad = wrong_views(u, f, w, cur, views)
+        for view, got, want in bad:
+            rec.violation(f"C20.history/UnsignedByteField.{view}/out-of-step/after-value={last}", case, {"step": step, view: got, "model_value": cur}, want)
+        return not bad
+
+    for i, ev in enumerate(events):
+        how = ev[0]
+        step = f"{i}:{how}"
+        if how == "R":
+            try:
+                str(f), repr(f)  # not judged; they are observers that may fill a cache
+            except Exception:
+                pass
+            if not judge(step):
+                return
+            continue
+        if how == "V":
+            if not judge(step + ":" + ev[1], [ev[1]]):
+                return
+            continue
+        if how == "int":
+            val = int(ev[1])
+            valid, new, may_refuse, buf = (0 <= val <= m), val, False, None
+        else:
+            raw = bytes(ev[1])
+            valid, new, may_refuse = (len(raw) >= w), int.from_bytes(raw[:w], "big"), w == 0
+            buf = bytearray(raw) if how == "bytearray" else None
+            val = raw if buf is None else buf
+        try:
+            f.value = val
+            accepted = True
+        except ValueError:
+            accepted = False
+        except Exception as e:
+            rec.violation(f"C20.setter/value={how}/exception/{type(e).__name__}", case, {"step": step, "error": repr(e)}, "ValueError or accepted")
+            return
+        scribble(buf)
+        if accepted and not valid:
+            rec.violation(f"C20.setter/value={how}/accepted-invalid/width={w}", case, {"step": step, "value": repr(f.value)}, "ValueError")
+            return
+        if not accepted and valid and not may_refuse:
+            rec.violation(f"C20.setter/value={how}/refused-valid/width={w}", case, {"step": step}, new)
+            return
+        if accepted:
+            cur, last = new, how
+        else:
+            now = f.value  # a refused assignment: the field must still be coherent (ASSUMPTIONS)
+            if not (isinstance(now, int) and 0 <= now <= m):
+                rec.violation(f"C20.setter/value={how}/views-out-of-step/width={w}", case, {"step": step, "value": repr(now)}, "an in-range value")
+                return
+            if now != cur:
+                cur, last = now, how + "-refused"
+        rec.outcome(f"setter:{how}:{'accepted' if accepted else 'refused'}")
+    if not judge("end"):
+        return
+    rec.traces += 1
+    if keeper is not None:
+        keeper.recheck(case)
+        keeper.hold(entry, f, snapshot, case)
+
+
+# ------------------------------------------------------------- independence histories
+def alias_values(w, tier):
+    if w == 0:
+        return [0]
+    if w == 1:
+        return list(range(256))
+    n = 256 if tier == "quick" else 4096
+    return D.dedupe(list(range(n)) + D.walk(8 * w) + D.edge(8 * w))
+
+
+ALIAS_HOWS = ["int", "bytes", "bytearray"]
+
+
+def check_alias(rec: Rec, w: int, x: int, entry: str, how: str, keeper=None):
+    """build X through `entry`; the caller overwrites the buffer it passed; assign the complement to the result;
+    build X again through every entry point: each reads X, the re-assigned field keeps the complement"""
+    u = _u()
+    case = {"kind": "alias", "w": w, "v": str(x), "entry": entry, "how": how}
+    ents = entries(w)
+    rec.case(True, ops=8 * (len(ents) + 2))
+    m = (1 << (8 * w)) - 1
+    y = x ^ m
+    try:
+        g, scratch = build(u, entry, w, x)
+    except Exception as e:
+        rec.violation(f"C20.rebuild/{entry}/exception/{type(e).__name__}/width={w}", case, repr(e), (w, x))
+        return
+    bad = wrong_views(u, g, w, x)
+    if bad:
+        rec.violation(f"C20.rebuild/{entry}/views/width={w}", case, bad, (w, x))
+        return
+    if scratch is not None:
+        scribble(scratch)
+        bad = wrong_views(u, g, w, x)
+        if bad:
+            rec.violation(f"C20.independence/{entry}/field-follows-the-callers-buffer", case, bad, (w, x))
+            return
+    octets = g.as_bytes  # the very object handed out: it must keep reading X whatever happens to the field later
+    if w:
+        raw = y.to_bytes(w, "big")
+        buf = bytearray(raw) if how == "bytearray" else None
+        try:
+            g.value = y if how == "int" else (raw if buf is None else buf)
+        except Exception as e:
+            rec.violation(f"C20.setter/value={how}/exception/{type(e).__name__}", case, repr(e), y)
+            return
+        scribble(buf)
+        bad = wrong_views(u, g, w, y)
+        if bad:
+            rec.violation(f"C20.history/UnsignedByteField.{bad[0][0]}/out-of-step/after-value={how}", case, bad, (w, y))
+            return
+    held = []
+    for e2 in ents:
+        try:
+            h, scratch2 = build(u, e2, w, x)
+        except Exception as e:
+            rec.violation(f"C20.independence/{e2}/exception-after-an-earlier-result-was-reassigned/{type(e).__name__}", case, repr(e), (w, x))
+            continue
+        scribble(scratch2)
+        bad = wrong_views(u, h, w, x)
+        if bad:
+            rec.violation(f"C20.independence/{e2}/built-field-depends-on-an-earlier-reassigned-result", case, {"second_entry": e2, "wrong": bad}, (w, x))
+            continue
+        bad = wrong_views(u, g, w, y)
+        if bad:
+            rec.violation(f"C20.independence/{e2}/building-a-field-changes-one-handed-out-earlier", case, {"second_entry": e2, "wrong": bad}, (w, y))
+            return
+        held.append((e2, h))
+    if bytes(octets) != x.to_bytes(w, "big"):
+        rec.violation("C20.independence/UnsignedByteField.as_bytes/octets-handed-out-earlier-change", case, bytes(octets), x.to_bytes(w, "big"))
+    if keeper is not None:
+        keeper.recheck(case)  # results of the previous case, after every library call of this one
+        keeper.hold(entry, g, snapshot, case)
+        keeper.hold("UnsignedByteField.as_bytes", g.as_bytes, bytes, case)
+        for e2, h in held:
+            keeper.hold(e2, h, snapshot, case)
+
+
 def eq_fields():
     """(width, value) of the edge product, every value also in every wider width"""
     out = [(0, 0)]
@@ -362,7 +692,7 @@ def check_hash_dependence(rec: Rec):
     rec.count("hash_width_pairs_colliding", sum(1 for a, b in widthpairs if hs[a] == hs[b]))
 
 
-def check_helper(rec: Rec, signed: int, w: int, val: int, nontrivial=True):
+def check_helper(rec: Rec, signed: int, w: int, val: int, nontrivial=True, keeper=None):
     u = _u()
     name = "to_signed" if signed else "to_unsigned"
     fn = getattr(u.IntByteConversion, name)
@@ -391,6 +721,9 @@ def check_helper(rec: Rec, signed: int, w: int, val: int, nontrivial=True):
     exp = val.to_bytes(w, "big", signed=bool(signed))
     if bytes(got) != exp:
         rec.violation(f"C20.helpers/IntByteConversion.{name}/octets/width={w}", case, bytes(got), exp, repro=repro)
+    elif keeper is not None:
+        keeper.recheck(case)
+        keeper.hold(f"IntByteConversion.{name}", got, bytes, case)
 
 
 def as_signed(pattern, w):
@@ -399,6 +732,7 @@ def as_signed(pattern, w):
 
 # ---------------------------------------------------------------------- run_shard
 def run_shard(item):
+    _fresh_library()
     rec = Rec(PROPERTY, item)
     kind = item["kind"]
     if kind == "full":
@@ -480,6 +814,40 @@ def run_shard(item):
         rec.count("setter_histories_depth2", n)
         if w == 2:
             rec.sample({"history": {"start": [2, 0], "ops": [["int", "65535"], ["bytes", "hex:0102ee11"]]}, "expected_final": {"value": 0x0102, "as_bytes": b"\x01\x02"}}, limit=1)
+    elif kind == "ohist":
+        w, entry, wide = item["w"], item["entry"], bool(item["wide"])
+        menu = obs_menu(w, wide)
+        keeper = Keeper(rec, PROPERTY, depth=2)
+        n = 0
+        for v0 in item["starts"]:
+            for events in itertools.product(menu, repeat=item["depth"]):
+                check_obs_history(rec, w, entry, int(v0), list(events), keeper)
+                n += 1
+        keeper.recheck(None)
+        keeper.flush()
+        rec.count(f"observer_histories_depth{item['depth']}" + ("_wide_menu" if wide else ""), n)
+        rec.count("observer_history_events", n * item["depth"])
+        if w == 2 and entry == "ByteFieldGenerator.from_bytes" and not wide:
+            rec.sample({"observer_history": {"width": 2, "start": "ByteFieldGenerator.from_bytes(2, 0000)", "events": [["R"], ["bytes", "hex:5555"], ["V", "hash"]]},
+                        "expected": "hash == hash(UnsignedByteField(0x5555, 2)), every view of 0x5555", "menu_events": len(menu)}, limit=1)
+    elif kind == "alias":
+        w = item["w"]
+        vals = alias_values(w, item["tier"])
+        lo, hi = len(vals) * item["part"] // item["parts"], len(vals) * (item["part"] + 1) // item["parts"]
+        keeper = Keeper(rec, PROPERTY, depth=len(entries(w)) + 2)
+        n = 0
+        for e in entries(w):
+            for how in (ALIAS_HOWS if w else ["int"]):
+                for x in vals[lo:hi]:  # the value changes fastest: consecutive cases differ in value
+                    check_alias(rec, w, x, e, how, keeper)
+                    n += 1
+        keeper.recheck(None)
+        keeper.flush()
+        rec.count("independence_histories", n)
+        rec.count("independence_rebuilds", n * len(entries(w)))
+        if w == 1:
+            rec.sample({"independence_history": "g = ByteFieldGenerator.from_bytes(1, b'\\x21'); g.value = 0xde; then every entry point builds 0x21 again",
+                        "expected": "each new field reads 0x21, g keeps 0xde, every field handed out keeps its views while later cases run"}, limit=1)
     elif kind == "eqhash":
         fields = eq_fields()
         hows = ("ctor", "gen", "bytes")
@@ -499,15 +867,18 @@ def run_shard(item):
     elif kind == "helper_full":
         signed = item["signed"]
         n = 0
+        keeper = Keeper(rec, PROPERTY, depth=2)
         for w in (1, 2):
             for p in range(1 << (8 * w)):
-                check_helper(rec, signed, w, as_signed(p, w) if signed else p)
+                check_helper(rec, signed, w, as_signed(p, w) if signed else p, keeper=keeper)
                 n += 1
-        check_helper(rec, signed, 0, 0)
+        check_helper(rec, signed, 0, 0, keeper=keeper)
         for w in (4, 8):
             for p in D.walk(8 * w):
-                check_helper(rec, signed, w, as_signed(p, w) if signed else p)
+                check_helper(rec, signed, w, as_signed(p, w) if signed else p, keeper=keeper)
                 n += 1
+        keeper.recheck(None)
+        keeper.flush()
         rec.count("helper_values", n + 1)
         if signed:
             rec.sample({"helper": "IntByteConversion.to_signed(2, -32084)", "expected": (-32084).to_bytes(2, "big", signed=True)}, limit=1)
@@ -540,6 +911,7 @@ def run_shard(item):
 
 # ------------------------------------------------------------------------- replay
 def replay(case):
+    _fresh_library()
     rec = Rec(PROPERTY, "replay")
     case = unhex(case)
     k = case["kind"]
@@ -553,6 +925,10 @@ def replay(case):
         check_refuse_short(rec, case["how"], case["w"], case["raw"])
     elif k == "history":
         check_history(rec, case["w"], int(case["v0"]), case["ops"])
+    elif k == "ohist":
+        check_obs_history(rec, case["w"], case["entry"], int(case["v0"]), case["events"])
+    elif k == "alias":
+        check_alias(rec, case["w"], int(case["v"]), case["entry"], case["how"])
     elif k == "eq":
         check_eq_pair(rec, (case["a"][0], int(case["a"][1])), (case["b"][0], int(case["b"][1])), *case["how"])
     elif k == "hashdep":
